@@ -30,27 +30,28 @@ type Anchors struct {
 	CollMutex   *types.Var // Collection.<sync.Mutex>
 	ViewCache   *types.Var // Collection.<map[viewKey]*rosmarView>
 
-	TxnRunner   *ssa.Function   // outermost function that takes the transaction body (func(*sql.Tx) error) and leads to Begin
-	TxnCore     *ssa.Function   // the function that calls (*sql.DB).Begin (== TxnRunner unless the runner was split into helpers)
-	TxnChain    []*ssa.Function // TxnRunner ... TxnCore
-	Allocator   *ssa.Function   // direct caller of TxnRunner that hands a new CAS to a callback parameter
-	AllocClos   *ssa.Function   // the function that invokes the write callback with the new CAS: the closure Allocator passes to TxnRunner, or the method that closure delegates to
-	AllocOuter  *ssa.Function   // the closure Allocator passes to TxnRunner (== AllocClos unless it delegates)
-	ClockNow    *ssa.Function   // source of the CAS inside AllocClos
-	ClockGlobal *ssa.Global     // package-level variable the clock is loaded from
-	ClockType   *types.Named    // its struct type
-	MarkHelper  *ssa.Function   // helper called by AllocClos after the callback (setLastCas)
-	Converter   *ssa.Function   // (*event) -> *sgbucket.FeedEvent
-	PostFn      *ssa.Function   // takes *event, calls Converter
-	FanoutFn    *ssa.Function   // takes *FeedEvent, pushes to the feeds of the collection
-	ScanHelper  *ssa.Function   // scan(row *sql.Row, vals ...any)
-	PoolFns     []*ssa.Function // functions returning Queryable
-	AbsExpiry   *ssa.Function   // offset-to-absolute expiry
-	NowAsExpiry *ssa.Function
-	CloneFn     *ssa.Function // (*Bucket) -> *Bucket copying the shared fields
-	OpenFn      *ssa.Function // calls sql.Open
-	ShutdownFn  *ssa.Function // calls (*sql.DB).Close
-	WithMetaFn  *ssa.Function // common callee of SetWithMeta and DeleteWithMeta
+	TxnRunner     *ssa.Function   // outermost function that takes the transaction body (func(*sql.Tx) error) and leads to Begin
+	TxnCore       *ssa.Function   // the function that calls (*sql.DB).Begin (== TxnRunner unless the runner was split into helpers)
+	TxnChain      []*ssa.Function // TxnRunner ... TxnCore
+	Allocator     *ssa.Function   // direct caller of TxnRunner that hands a new CAS to a callback parameter
+	AllocClos     *ssa.Function   // the function that invokes the write callback with the new CAS: the closure Allocator passes to TxnRunner, or the method that closure delegates to
+	AllocOuter    *ssa.Function   // the closure Allocator passes to TxnRunner (== AllocClos unless it delegates)
+	ClockNow      *ssa.Function   // source of the CAS inside AllocClos
+	ClockGlobal   *ssa.Global     // package-level variable the clock is loaded from
+	ClockType     *types.Named    // its struct type
+	MarkHelper    *ssa.Function   // helper called by AllocClos after the callback (setLastCas)
+	Converter     *ssa.Function   // (*event) -> *sgbucket.FeedEvent
+	PostFn        *ssa.Function   // takes *event, calls Converter
+	FanoutFn      *ssa.Function   // takes *FeedEvent, pushes to the feeds of the collection
+	ScanHelper    *ssa.Function   // scan(row *sql.Row, vals ...any)
+	PoolFns       []*ssa.Function // functions returning Queryable
+	AbsExpiry     *ssa.Function   // offset-to-absolute expiry
+	NowAsExpiry   *ssa.Function
+	CloneFn       *ssa.Function   // (*Bucket) -> *Bucket copying the shared fields
+	OpenFn        *ssa.Function   // calls sql.Open
+	ShutdownFn    *ssa.Function   // calls (*sql.DB).Close
+	ShutdownSteps []*ssa.Function // steps of the shutdown routine that it alone calls (e.g. the one closing the handle)
+	WithMetaFn    *ssa.Function   // common callee of SetWithMeta and DeleteWithMeta
 
 	Problems map[string]string
 }
@@ -324,6 +325,36 @@ func (m *Model) resolveAnchors() error {
 		return f != nil && f.Pkg != nil && f.Pkg.Pkg.Path() == "database/sql" && f.Name() == "Open"
 	}))
 	a.ShutdownFn = one("ShutdownFn", m.fnsCalling(func(c *ssa.CallCommon) bool { return isMethodCall(c, "database/sql", "DB", "Close") }))
+	// the shutdown routine may delegate the closing of the handle to a step of its own
+	// (`_closeFeeds(); _closeHandle()`): an unexported, lock-free function with exactly one static
+	// caller that is itself unexported and takes no lock is a step of that caller
+	for depth := 0; depth < 3 && a.ShutdownFn != nil; depth++ {
+		cur := a.ShutdownFn
+		if cur.Object() != nil && cur.Object().Exported() {
+			break
+		}
+		callers := m.staticCallersOf(cur)
+		if len(callers) != 1 {
+			break
+		}
+		g := callers[0].Parent()
+		if g == nil || g.Parent() != nil || g == a.OpenFn || (g.Object() != nil && g.Object().Exported()) {
+			break
+		}
+		locks := false
+		for _, f := range []*ssa.Function{cur, g} {
+			m.eachCall(f, func(c ssa.CallInstruction) {
+				if t := c.Common().StaticCallee(); t != nil && t.Pkg != nil && t.Pkg.Pkg.Path() == "sync" {
+					locks = true
+				}
+			})
+		}
+		if locks {
+			break
+		}
+		a.ShutdownSteps = append(a.ShutdownSteps, cur)
+		a.ShutdownFn = g
+	}
 
 	// closed flag: the bool field of the bucket loaded in the txn runner
 	if a.TxnRunner != nil {
